@@ -200,6 +200,7 @@ func (o c19Origin) authority() string {
 	}
 	return h
 }
+
 // originKey identifies the (https) origin a request for o ends up at: an http URL is
 // upgraded keeping its explicit port, and a missing port is the scheme's default after the
 // upgrade, so https://h, https://h:443 and http://h are one origin, https://h:80 another.
